@@ -21,7 +21,8 @@
   the correspondence run checks that the Python objects really behave that way.  The handle
   caches (`MongoClient._database_accesses`, `Database._collection_accesses`) are part of the
   state: a handle must have been obtained (`getDb`, `getColl`) before it is used, a cache hit
-  skips the name validation, and `drop_database(handle)` looks the handle up in the cache.
+  skips the name validation.  `drop_database` and `drop_collection` read only the name of a
+  handle passed to them.
 
   Core Lean only.
 -/
@@ -88,7 +89,7 @@ def Coll.isCreated (c : Coll) : Bool := !c.docs.isEmpty || !c.indexes.isEmpty ||
 def genIndexName (ks : List (String × Int)) : String :=
   "_".intercalate (ks.map fun p => p.1 ++ "_" ++ toString p.2)
 
-/-- results of a step; errors by the shared enum (`StopIteration` is `.other`) -/
+/-- results of a step; errors by the shared enum -/
 inductive Out where
   | ok
   | err (e : Err)
@@ -234,10 +235,10 @@ def NameFilter.falsy : NameFilter → Bool
   | .eqStr s => s == ""
   | _ => false
 
-/-- `list_collection_names(filter=…)` (database.py:110-126): iterates over *all* keys of
-    `_collections`, created or not -/
+/-- `list_collection_names(filter=…)` (database.py:110-126): the created collections the filter
+    applies to, system collections left out -/
 def Server.listCollsFiltered (s : Server) (d : String) (f : NameFilter) : List String :=
-  (alKeys (s.db d)).filter (fun n => f.applies n && !isSystem n)
+  (createdColls (s.db d)).filter (fun n => f.applies n && !isSystem n)
 
 /-- `drop_collections_for_db` (mongo_client.py:132-135): every created collection of the
     database is dropped in place -/
@@ -319,9 +320,10 @@ def addCollCache (w : World) (c : Nat) (d n : String) : World :=
 /-- the model does not express the use of a handle that was never obtained -/
 def unob (w : World) : World × Out := (w, .err .unmodelled)
 
-/-- `Database.rename_collection` (database.py:178-197) on the server store of the handle -/
+/-- `Database.rename_collection` (database.py:178-199) on the server store of the handle -/
 def renameStep (s0 : Server) (d n n' : String) (dropTarget : Bool) : Server × Out :=
   if !validName n' then (s0, .err .invalidName)
+  else if n = n' then (s0, .err .opFail)              -- "Can't rename a collection to itself"
   else
     let s1 := s0.setColl d n (s0.coll d n)              -- `self._store[name]`
     if !(s1.coll d n).isCreated then (s1, .err .opFail)
@@ -333,6 +335,16 @@ def renameStep (s0 : Server) (d n n' : String) (dropTarget : Bool) : Server × O
           (s3.setDb d (renameIn (s3.db d) n n'), .ok)
         else (s2, .err .opFail)
       else (s2.setDb d (renameIn (s2.db d) n n'), .ok)
+
+/-- `MongoClient.drop_database` on a name (mongo_client.py:131-145): `name in self._store`
+    resolves (and so creates) the DatabaseStore; when it counts as created, the handle is taken
+    from / put into the cache (`get_database`) and every created collection is dropped -/
+def dropDatabaseStep (σ : Nat → Nat) (w : World) (c : Nat) (d : String) : World × Out :=
+  let i := σ c
+  let s1 := (w.store i).touchDb d
+  if dbCreated (s1.db d) then
+    (addDbCache (w.setStore i (s1.setDb d (dropAll (s1.db d)))) c d, .ok)
+  else (w.setStore i s1, .ok)
 
 /-- one step of the real code; `σ c` is the index of the ServerStore client `c` was built on
     (`MongoClient(_store=…)` shares one) -/
@@ -360,18 +372,19 @@ def step (σ : Nat → Nat) (w : World) : Op → World × Out
       let i := σ h.client
       let r := renameStep (w.store i) h.db h.coll n' dt
       (w.setStore i r.1, r.2)
-  -- database.py:167-176
+  -- database.py:167-176: the existence check looks at the created collections themselves
+  -- (`_get_created_collections`), system ones included
   | .createCollection h n =>
     if !obtainedDb w h then unob w
     else if !validName n then (w, .err .invalidName)
     else
       let i := σ h.client
       let s := w.store i
-      if (s.listColls h.db).contains n then (w, .err .collInvalid)
+      if (createdColls (s.db h.db)).contains n then (w, .err .collInvalid)
       else
         (addCollCache (w.setStore i (s.setColl h.db n { s.coll h.db n with forceCreated := true }))
           h.client h.db n, .ok)
-  -- database.py:146-152: a Collection argument is dropped through *its own* `_store`
+  -- database.py:146-152: only the name of a Collection argument is used
   | .dropCollection h (.byName n) =>
     if !obtainedDb w h then unob w
     else
@@ -380,8 +393,8 @@ def step (σ : Nat → Nat) (w : World) : Op → World × Out
   | .dropCollection h (.byHandle h') =>
     if !obtainedDb w h || !obtainedColl w h' then unob w
     else
-      let i := σ h'.client
-      (w.setStore i ((w.store i).setColl h'.db h'.coll Coll.empty), .ok)
+      let i := σ h.client
+      (w.setStore i ((w.store i).setColl h.db h'.coll Coll.empty), .ok)
   | .renameCollection h n n' dt =>
     if !obtainedDb w h then unob w
     else
@@ -398,22 +411,12 @@ def step (σ : Nat → Nat) (w : World) : Op → World × Out
     else (w, .names ((w.store (σ h.client)).listCollsFiltered h.db f))
   -- mongo_client.py:128-129
   | .listDatabaseNames c => (w, .names (w.store (σ c)).listDbs)
-  -- mongo_client.py:131-146: `name in self._store` resolves (and so creates) the DatabaseStore
-  | .dropDatabase c (.byName d) =>
-    let i := σ c
-    let s1 := (w.store i).touchDb d
-    if dbCreated (s1.db d) then
-      (addDbCache (w.setStore i (s1.setDb d (dropAll (s1.db d)))) c d, .ok)
-    else (w.setStore i s1, .ok)
-  -- `next(db for db in self._database_accesses.values() if db is name_or_db)`: StopIteration
-  -- unless the handle is this very client's
+  -- mongo_client.py:131-145
+  | .dropDatabase c (.byName d) => dropDatabaseStep σ w c d
+  -- only the name of a Database argument is used, whichever client made the handle
   | .dropDatabase c (.byHandle h) =>
     if !obtainedDb w h then unob w
-    else if h.client ≠ c then (w, .err .other)
-    else
-      let i := σ c
-      let s1 := (w.store i).touchDb h.db
-      (w.setStore i (s1.setDb h.db (dropAll (s1.db h.db))), .ok)
+    else dropDatabaseStep σ w c h.db
 
 /-- run a history, collecting the outputs -/
 def run (σ : Nat → Nat) : World → List Op → World × List Out
